@@ -244,6 +244,7 @@ type world struct {
 
 	specs map[int]specDoc
 	vals  map[int]valDoc
+	uniq  bool // both stores carry the application's unique index on (namespace, name)
 
 	mu       sync.Mutex
 	notes    []note
@@ -432,6 +433,231 @@ func (w *world) insSpec(d specDoc) {
 	}
 	w.op(d.line("is"), out)
 	w.c.Hit("op-insert-spec-" + out)
+}
+
+// ---------------------------------------------------------------- batches: one Insert of several documents
+
+// withUniqueNames gives both stores the unique (namespace, name) index cmd/pkg/uniflow creates.
+func (w *world) withUniqueNames() {
+	for _, st := range []store.Store{w.specStore, w.valueStore} {
+		if err := st.Index(w.ctx, []string{spec.KeyNamespace, spec.KeyName}, store.IndexOptions{Unique: true,
+			Filter: map[string]any{spec.KeyName: map[string]any{"$exists": true}}}); err != nil {
+			w.fail("index-error", err.Error())
+		}
+	}
+	w.uniq = true
+}
+
+func has(st store.Store, ctx context.Context, id int) bool {
+	cur, err := st.Find(ctx, map[string]any{spec.KeyID: uid(id)})
+	if err != nil {
+		return false
+	}
+	defer cur.Close(ctx)
+	return cur.Next(ctx)
+}
+
+// batchOutcome: what one Insert of several documents must do, document by document – the first
+// refused one ends it, those before it stay stored (and must have been announced).
+//   refusal "": none; "dup": id already stored or earlier in the batch; "noid": no id; "uniq":
+//   (namespace, name) taken – the last two are outside the model (accepted = 0 in its line).
+func batchRefusal(noID bool, idTaken bool, nameTaken bool) string {
+	switch {
+	case noID:
+		return "noid"
+	case idTaken:
+		return "dup"
+	case nameTaken:
+		return "uniq"
+	}
+	return ""
+}
+
+func batchOut(refusal string) string {
+	switch refusal {
+	case "":
+		return "ok"
+	case "dup":
+		return "dup"
+	}
+	return "bad"
+}
+
+func implBatchOut(err error, refusal string) string {
+	switch {
+	case err == nil:
+		return "ok"
+	case errors.Is(err, store.ErrKeyDuplicate) && refusal == "uniq":
+		return "bad"
+	case errors.Is(err, store.ErrKeyDuplicate):
+		return "dup"
+	case errors.Is(err, store.ErrKeyMissing):
+		return "bad"
+	}
+	return "err:" + err.Error()
+}
+
+// insSpecBatch: ONE Insert call with all of ds; noID[i] strips document i of its id.
+func (w *world) insSpecBatch(ds []specDoc, noID []bool) {
+	docs := make([]any, len(ds))
+	for i, d := range ds {
+		m := d.doc()
+		if noID[i] {
+			delete(m, spec.KeyID)
+		}
+		docs[i] = m
+	}
+	err := w.specStore.Insert(w.ctx, docs)
+	refusal, stored := "", 0
+	var parts []string
+	for i, d := range ds {
+		r := ""
+		if refusal == "" {
+			nameTaken := false
+			if w.uniq {
+				for _, o := range w.specs {
+					nameTaken = nameTaken || (o.ns == d.ns && o.name == d.name)
+				}
+			}
+			_, idTaken := w.specs[d.id]
+			r = batchRefusal(noID[i], idTaken, nameTaken)
+			if r == "" {
+				w.specs[d.id] = d
+				stored++
+			} else {
+				refusal = r
+			}
+		}
+		acc := 1
+		if r == "noid" || r == "uniq" {
+			acc = 0
+		}
+		if noID[i] {
+			d.id = 0
+		}
+		parts = append(parts, fmt.Sprintf("%d %s", acc, strings.TrimPrefix(d.line("x"), "x ")))
+	}
+	out := implBatchOut(err, refusal)
+	if out != batchOut(refusal) {
+		w.fail("store-outcome", fmt.Sprintf("Insert of %d specs: %s (err=%v), expected %s (refusal %q after %d stored)", len(ds), out, err, batchOut(refusal), refusal, stored))
+	}
+	for i, d := range ds {
+		if noID[i] {
+			continue
+		}
+		if _, want := w.specs[d.id]; has(w.specStore, w.ctx, d.id) != want {
+			w.fail("store-outcome", fmt.Sprintf("after an Insert of %d specs (refusal %q): spec %d stored=%v, expected %v", len(ds), refusal, d.id, !want, want))
+		}
+	}
+	w.remark(fmt.Sprintf("the next line is ONE Insert of %d documents on the spec store", len(ds)))
+	w.op(fmt.Sprintf("bis %d %s", len(ds), strings.Join(parts, " ")), out)
+	w.c.Hit("op-batch-spec-" + batchOut(refusal) + "-" + refusal)
+	if refusal != "" && stored > 0 {
+		w.c.Hit("batch-refused-after-storing")
+	}
+}
+
+func (w *world) insValBatch(vs []valDoc, noID []bool) {
+	docs := make([]any, len(vs))
+	for i, v := range vs {
+		m := v.doc()
+		if noID[i] {
+			delete(m, value.KeyID)
+		}
+		docs[i] = m
+	}
+	err := w.valueStore.Insert(w.ctx, docs)
+	refusal, stored := "", 0
+	var parts []string
+	for i, v := range vs {
+		r := ""
+		if refusal == "" {
+			nameTaken := false
+			if w.uniq {
+				for _, o := range w.vals {
+					nameTaken = nameTaken || (o.ns == v.ns && o.name == v.name)
+				}
+			}
+			_, idTaken := w.vals[v.id]
+			r = batchRefusal(noID[i], idTaken, nameTaken)
+			if r == "" {
+				w.vals[v.id] = v
+				stored++
+			} else {
+				refusal = r
+			}
+		}
+		acc := 1
+		if r == "noid" || r == "uniq" {
+			acc = 0
+		}
+		if noID[i] {
+			v.id = 0
+		}
+		parts = append(parts, fmt.Sprintf("%d %s", acc, strings.TrimPrefix(v.line("x"), "x ")))
+	}
+	out := implBatchOut(err, refusal)
+	if out != batchOut(refusal) {
+		w.fail("store-outcome", fmt.Sprintf("Insert of %d values: %s (err=%v), expected %s (refusal %q after %d stored)", len(vs), out, err, batchOut(refusal), refusal, stored))
+	}
+	for i, v := range vs {
+		if noID[i] {
+			continue
+		}
+		if _, want := w.vals[v.id]; has(w.valueStore, w.ctx, v.id) != want {
+			w.fail("store-outcome", fmt.Sprintf("after an Insert of %d values (refusal %q): value %d stored=%v, expected %v", len(vs), refusal, v.id, !want, want))
+		}
+	}
+	w.remark(fmt.Sprintf("the next line is ONE Insert of %d documents on the value store", len(vs)))
+	w.op(fmt.Sprintf("biv %d %s", len(vs), strings.Join(parts, " ")), out)
+	w.c.Hit("op-batch-value-" + batchOut(refusal) + "-" + refusal)
+	if refusal != "" && stored > 0 {
+		w.c.Hit("batch-refused-after-storing")
+	}
+}
+
+// batchPlan picks 2–4 ids for one Insert: fresh ids first, then – by `pattern` – an id that is
+// already stored (1), an id used earlier in the same batch (2), a document without id (3), or
+// nothing refused (0); one more fresh document may follow the refused one.
+func batchPlan(rng *lib.RNG, base, n int, exists func(int) bool, pattern int) (ids []int, noID []bool) {
+	var fresh, taken []int
+	for id := base; id < base+n; id++ {
+		if exists(id) {
+			taken = append(taken, id)
+		} else {
+			fresh = append(fresh, id)
+		}
+	}
+	for i := len(fresh) - 1; i > 0; i-- {
+		j := rng.Intn(i + 1)
+		fresh[i], fresh[j] = fresh[j], fresh[i]
+	}
+	k := rng.Range(1, 3)
+	if k > len(fresh) {
+		k = len(fresh)
+	}
+	ids = append(ids, fresh[:k]...)
+	rest := fresh[k:]
+	noID = make([]bool, len(ids))
+	switch pattern {
+	case 1:
+		if len(taken) > 0 {
+			ids, noID = append(ids, lib.Pick(rng, taken)), append(noID, false)
+		}
+	case 2:
+		if len(ids) > 0 {
+			ids, noID = append(ids, lib.Pick(rng, ids)), append(noID, false)
+		}
+	case 3:
+		ids, noID = append(ids, base), append(noID, true)
+	}
+	if pattern != 0 && len(rest) > 0 && rng.Bool() {
+		ids, noID = append(ids, rest[0]), append(noID, false)
+	}
+	if len(ids) < 2 && len(rest) > 0 {
+		ids, noID = append(ids, rest[0]), append(noID, false)
+	}
+	return ids, noID
 }
 
 func (w *world) updSpec(d specDoc) {
@@ -958,7 +1184,25 @@ func pickID(rng *lib.RNG, base, n int, exists func(int) bool, wantExisting bool)
 func (w *world) mutate(rng *lib.RNG, nns int) {
 	hasSpec := func(id int) bool { _, ok := w.specs[id]; return ok }
 	hasVal := func(id int) bool { _, ok := w.vals[id]; return ok }
-	switch rng.Weighted([]int{5, 5, 2, 5, 5, 2, 4, 4}) {
+	switch rng.Weighted([]int{5, 5, 2, 5, 5, 2, 4, 4, 3, 3}) {
+	case 8: // one Insert of several specs, a later one possibly refused
+		ids, noID := batchPlan(rng, 1, nSpecIDs, hasSpec, rng.Intn(4))
+		var ds []specDoc
+		for _, id := range ids {
+			ds = append(ds, genSpec(rng, id, nns, w.sortedVals()))
+		}
+		if len(ds) > 0 {
+			w.insSpecBatch(ds, noID)
+		}
+	case 9:
+		ids, noID := batchPlan(rng, valBase, nValIDs, hasVal, rng.Intn(4))
+		var vs []valDoc
+		for _, id := range ids {
+			vs = append(vs, genVal(rng, id, nns))
+		}
+		if len(vs) > 0 {
+			w.insValBatch(vs, noID)
+		}
 	case 6: // Update with Upsert / $unset on the spec store: on an absent or an existing document
 		d := genSpec(rng, pickID(rng, 1, nSpecIDs, hasSpec, rng.Bool()), nns, w.sortedVals())
 		if old, ok := w.specs[d.id]; ok && rng.Bool() {
@@ -1825,6 +2069,110 @@ func upsertCase(c *lib.Ctx, rng *lib.RNG, sc *lib.Script, fails *[]lib.OracleFai
 	return "u:" + strings.Join(w.trace, ";")
 }
 
+// ---------------------------------------------------------------- refused batches under Watch+Reconcile
+
+// batchCase (directed): both stores carry the unique (namespace, name) index; Watch + Reconcile;
+// ONE Insert of three documents whose second is refused – its id is already stored (0), it repeats
+// the first document's id (1), its (namespace, name) is taken (2), it has no id (3) – or none is (4).
+// The first document is stored and must be announced: on the spec store it must get its symbol, on
+// the value store the spec waiting for it must become bound. Then the refused and the third document
+// are inserted properly.
+func batchCase(c *lib.Ctx, rng *lib.RNG, sc *lib.Script, fails *[]lib.OracleFail, onValue bool, reason int) string {
+	w := newWorld(c, sc, fails, 1)
+	defer w.close()
+	w.withUniqueNames()
+	w.op("rt 1", "ok")
+	sid, vid := 1+rng.Intn(nSpecIDs), valBase+rng.Intn(nValIDs)
+	nextS := func(k int) int { return (sid-1+k)%nSpecIDs + 1 }
+	nextV := func(k int) int { return valBase + (vid-valBase+k)%nValIDs }
+	byID := rng.Bool()
+	ref := func(v valDoc) []envEnt {
+		if byID {
+			return []envEnt{{key: 1, byID: true, ref: v.id}}
+		}
+		return []envEnt{{key: 1, ref: v.name}}
+	}
+	v1 := valDoc{id: vid, ns: 1, name: 1, ver: rng.Range(1, 9)}
+	v2 := valDoc{id: nextV(1), ns: 1, name: 2, ver: 2}
+	v3 := valDoc{id: nextV(2), ns: 1, name: 3, ver: 3}
+	old := specDoc{id: nextS(3), ns: 1, name: 3, kind: rng.Intn(2), ver: 3}
+	a := specDoc{id: sid, ns: 1, name: 1, kind: rng.Intn(3), ver: 1, env: ref(v1)}
+	b := specDoc{id: nextS(1), ns: 1, name: 2, kind: rng.Intn(3), ver: 1}
+	cc := specDoc{id: nextS(2), ns: 1, name: 4, kind: rng.Intn(3), ver: 1}
+	w.insSpec(old)
+	if onValue {
+		w.insSpec(a) // waits for v1
+		w.insVal(valDoc{id: nextV(3), ns: 1, name: 4, ver: 4})
+	} else {
+		w.insVal(v1)
+	}
+	s := w.startSessionPlain()
+	noID := []bool{false, false, false}
+	if onValue {
+		switch reason {
+		case 0:
+			v2.id = nextV(3)
+		case 1:
+			v2.id = v1.id
+		case 2:
+			v2.name = 4
+		case 3:
+			noID[1] = true
+		}
+		w.insValBatch([]valDoc{v1, v2, v3}, noID)
+	} else {
+		switch reason {
+		case 0:
+			b.id = old.id
+		case 1:
+			b.id = a.id
+		case 2:
+			b.name = old.name
+		case 3:
+			noID[1] = true
+		}
+		w.insSpecBatch([]specDoc{a, b, cc}, noID)
+	}
+	got, ok := w.quiesce(3 * time.Second)
+	w.op("drain", "T "+got)
+	if !ok {
+		w.fail("table-not-target-after-batch", fmt.Sprintf("ONE Insert of three %ss whose second was refused (reason %d: 0 id stored, 1 id repeated, 2 name taken, 3 no id, 4 none); 3 s later the table is [%s], the stores demand [%s]",
+			map[bool]string{false: "spec", true: "value"}[onValue], reason, got, tableString(w.target())))
+	}
+	// what the batch left out goes in one by one
+	if onValue {
+		w.insVal(v3)
+	} else {
+		w.insSpec(cc)
+	}
+	got, ok = w.quiesce(3 * time.Second)
+	w.op("drain", "T "+got)
+	if !ok {
+		w.fail("not-converged", fmt.Sprintf("after the batch: the table is [%s], the stores demand [%s]", got, tableString(w.target())))
+	}
+	w.takeNotes()
+	s.cancel()
+	w.awaitReconcile(s, "its context was cancelled")
+	c.Hit(fmt.Sprintf("batch-directed-value-%v-reason-%d", onValue, reason))
+	if c.Evaluations < 2 {
+		c.Sample(w.trace)
+	}
+	return "b:" + strings.Join(w.trace, ";")
+}
+
+// startSessionPlain: Watch, Load(nil), Reconcile in a goroutine.
+func (w *world) startSessionPlain() *session {
+	s := &session{done: make(chan error, 1)}
+	s.ctx, s.cancel = context.WithCancel(context.Background())
+	if err := w.rt.Watch(s.ctx); err != nil {
+		w.fail("watch-error", err.Error())
+	}
+	w.op("watch", "ok")
+	w.load(nil)
+	go func() { s.done <- w.rt.Reconcile(s.ctx) }()
+	return s
+}
+
 // ---------------------------------------------------------------- corpus
 
 // replayCorpus runs hand-written op files: every line is executed on the implementation and
@@ -1895,7 +2243,7 @@ func replayCorpus(c *lib.Ctx, sc *lib.Script, fails *[]lib.OracleFail) {
 }
 
 func Run(c *lib.Ctx) {
-	c.Rule = "random histories (≤30 ops quick / ≤70 thorough) of insert / update / delete / Update with Upsert or $unset (documents addressed by id, id+namespace, name, namespace+name; namespace in the filter or only in $set; on existing and on absent documents) on the spec store (6 ids, kinds k0 k1 registered, k2 k3 unknown, 0–2 env entries by id or by name) and the value store (6 ids, 4 names) over 2–3 namespaces with Load(nil) / Load({id}) / Load({$or}) at random points, every Load observed (whole table + notifications) and compared with Uniflow.Runtime.step and with the harness's own target; plus Watch+Reconcile runs (bursts of 1–4 mutations) compared at quiescence – one to three watch sessions on the SAME runtime (a session ends by cancelling its context, sometimes followed by Runtime.Close or by another Reconcile call; the next starts with Watch – sometimes twice – and Load(nil); Watch may also be repeated in a live session) –, plus forced overlaps of a parked Load with the mutation and the other consumer (verif yield hook), plus a directed family (the same spec / the same bound value updated 2–3 times while the reconciler's Load for the first update is parked, with / without an unrelated event afterwards) and the same as a random ingredient of the Watch+Reconcile histories (1 round in 4), plus a second directed family (a spec that a parked Load – the reload for its value's update, or a user's Load(nil) – has read is deleted / deleted and re-inserted here or in another namespace / loses its value, the reconciler gets a moment, the Load is released) and its random ingredient (1 round in 4); non-trivial = at least two Loads and a non-empty spec store, distinct by full trace"
+	c.Rule = "random histories (≤30 ops quick / ≤70 thorough) of insert (single documents and batches of 2–4 with a later document refused: id stored, id repeated in the batch, no id; in a directed family also a taken (namespace,name) under the unique index) / update / delete / Update with Upsert or $unset (documents addressed by id, id+namespace, name, namespace+name; namespace in the filter or only in $set; on existing and on absent documents) on the spec store (6 ids, kinds k0 k1 registered, k2 k3 unknown, 0–2 env entries by id or by name) and the value store (6 ids, 4 names) over 2–3 namespaces with Load(nil) / Load({id}) / Load({$or}) at random points, every Load observed (whole table + notifications) and compared with Uniflow.Runtime.step and with the harness's own target; plus Watch+Reconcile runs (bursts of 1–4 mutations) compared at quiescence – one to three watch sessions on the SAME runtime (a session ends by cancelling its context, sometimes followed by Runtime.Close or by another Reconcile call; the next starts with Watch – sometimes twice – and Load(nil); Watch may also be repeated in a live session) –, plus forced overlaps of a parked Load with the mutation and the other consumer (verif yield hook), plus a directed family (the same spec / the same bound value updated 2–3 times while the reconciler's Load for the first update is parked, with / without an unrelated event afterwards) and the same as a random ingredient of the Watch+Reconcile histories (1 round in 4), plus a second directed family (a spec that a parked Load – the reload for its value's update, or a user's Load(nil) – has read is deleted / deleted and re-inserted here or in another namespace / loses its value, the reconciler gets a moment, the Load is released) and its random ingredient (1 round in 4); non-trivial = at least two Loads and a non-empty spec store, distinct by full trace"
 	c.Assumptions = []string{
 		"each store mutation, each Load and each consumption of one stream event is one atomic step of the model (store mutex; loadMu of the fixed runtime)",
 		"a spec and a value keep their namespace for life (a move is delete + insert); env entries reference a value by id or by name (anonymous entries and Config.Environment are C18's subject and are not generated)",
@@ -1943,6 +2291,15 @@ func Run(c *lib.Ctx) {
 			} {
 				sc.Begin()
 				c.Count(upsertCase(c, rng.Fork(), sc, &fails, onValue, sh))
+			}
+		}
+	}
+	// directed family: ONE Insert of several documents, a later one refused (stores with the unique name index)
+	for rep := c.Scale(1, 5); rep > 0; rep-- {
+		for _, onValue := range []bool{false, true} {
+			for reason := 0; reason < 5; reason++ {
+				sc.Begin()
+				c.Count(batchCase(c, rng.Fork(), sc, &fails, onValue, reason))
 			}
 		}
 	}
